@@ -253,3 +253,209 @@ Section Column.
       + assert (0 < nth k b 0) by (apply Hpos; lra). lra.
   Qed.
 End Column.
+
+(* ------------------------------------------------------------------ storage layout: sort_indices, explicit zeros, order *)
+Notation lookupR := (lookup R 0).
+Definition keys (c : list (Z * R)) : list Z := map fst c.
+
+Lemma insert_entry_perm : forall e l, Permutation (e :: l) (insert_entry R e l).
+Proof.
+  induction l as [|e' t IH]; simpl; auto. destruct (fst e <? fst e')%Z; auto.
+  eapply perm_trans; [apply perm_swap|]. constructor. exact IH.
+Qed.
+Lemma sort_col_perm : forall c, Permutation c (sort_col R c).
+Proof. induction c; simpl; auto. eapply perm_trans; [|apply insert_entry_perm]. constructor; auto. Qed.
+
+Lemma insert_entry_sorted : forall e l, wsorted (keys l) -> wsorted (keys (insert_entry R e l)).
+Proof.
+  induction l as [|e' t IH]; simpl; intros H; [repeat constructor|].
+  destruct (fst e <? fst e')%Z eqn:E.
+  - apply Z.ltb_lt in E. simpl. constructor; auto. constructor; [lia|].
+    inversion H; subst. eapply Forall_impl; [|eassumption]. intros; simpl in *; lia.
+  - apply Z.ltb_ge in E. simpl. inversion H; subst. constructor; [apply IH; assumption|].
+    assert (Hp : Permutation (fst e :: keys t) (keys (insert_entry R e t))).
+    { unfold keys. change (fst e :: map fst t) with (map fst (e :: t)). apply Permutation_map. apply insert_entry_perm. }
+    eapply Permutation_Forall; [exact Hp|]. constructor; auto.
+Qed.
+Lemma sort_col_sorted : forall c, wsorted (keys (sort_col R c)).
+Proof. induction c; simpl. constructor. apply insert_entry_sorted; auto. Qed.
+
+Lemma wsorted_NoDup_incr : forall l, wsorted l -> NoDup l -> incr l.
+Proof.
+  induction l as [|x l IH]; intros Hs Hn; [constructor|].
+  inversion Hs; subst. inversion Hn; subst. constructor; [apply IH; assumption|].
+  rewrite Forall_forall in *. intros y Hy. specialize (H2 y Hy).
+  destruct (Z.eq_dec x y); [subst; contradiction|lia].
+Qed.
+
+Lemma sort_col_incr : forall c, NoDup (keys c) -> incr (keys (sort_col R c)).
+Proof.
+  intros c H. apply wsorted_NoDup_incr; [apply sort_col_sorted|].
+  eapply Permutation_NoDup; [|exact H]. unfold keys. apply Permutation_map. apply sort_col_perm.
+Qed.
+
+Lemma lookup_in_nodup : forall (l : list (Z * R)) k v, NoDup (keys l) -> In (k, v) l -> lookupR k l = v.
+Proof.
+  induction l as [|[j w] t IH]; intros k v Hn Hin; [inversion Hin|]. simpl. inversion Hn; subst.
+  destruct Hin as [Hin|Hin].
+  - inversion Hin; subst. rewrite Z.eqb_refl. reflexivity.
+  - destruct (j =? k)%Z eqn:E.
+    + apply Z.eqb_eq in E. subst. exfalso. apply H1. apply (in_map fst) in Hin. exact Hin.
+    + apply IH; assumption.
+Qed.
+Lemma lookup_notin_keys : forall (l : list (Z * R)) k, ~ In k (keys l) -> lookupR k l = 0%R.
+Proof.
+  induction l as [|[j w] t IH]; intros k H; simpl; auto.
+  destruct (j =? k)%Z eqn:E; [apply Z.eqb_eq in E; subst; exfalso; apply H; left; reflexivity|].
+  apply IH. intro. apply H. right. assumption.
+Qed.
+
+(* the dense meaning of a column does not depend on the order of its entries *)
+Lemma lookup_perm : forall l l' k, NoDup (keys l) -> Permutation l l' -> lookupR k l = lookupR k l'.
+Proof.
+  intros l l' k Hn Hp.
+  assert (Hn' : NoDup (keys l')) by (eapply Permutation_NoDup; [|exact Hn]; unfold keys; apply Permutation_map; exact Hp).
+  destruct (In_dec Z.eq_dec k (keys l)) as [Hin|Hnot].
+  - unfold keys in Hin. apply in_map_iff in Hin. destruct Hin as ([k' v] & Hk & Hin). simpl in Hk. subst k'.
+    rewrite (lookup_in_nodup l k v Hn Hin).
+    rewrite (lookup_in_nodup l' k v Hn' (Permutation_in _ Hp Hin)). reflexivity.
+  - rewrite (lookup_notin_keys l k Hnot). symmetry. apply lookup_notin_keys.
+    intro Hc. apply Hnot. unfold keys in *. eapply Permutation_in; [apply Permutation_map, Permutation_sym, Hp|exact Hc].
+Qed.
+
+Lemma lookup_sort_col : forall c k, NoDup (keys c) -> lookupR k (sort_col R c) = lookupR k c.
+Proof. intros. symmetry. apply lookup_perm; auto. apply sort_col_perm. Qed.
+
+(* an explicit zero does not change the dense meaning *)
+Lemma lookup_explicit_zero : forall c i k, ~ In i (keys c) -> lookupR k ((i, 0%R) :: c) = lookupR k c.
+Proof.
+  intros c i k H. simpl. destruct (i =? k)%Z eqn:E; auto. apply Z.eqb_eq in E. subst.
+  symmetry. apply lookup_notin_keys. assumption.
+Qed.
+
+Open Scope R_scope.
+
+(* ------------------------------------------------------------------ the matrix-level model equals the dense definition *)
+Definition rowsum (M : nat -> nat -> R) (m : nat) (i : nat) : R := sumR (map (fun j => M i j) (seq 0 m)).
+Definition total (M : nat -> nat -> R) (n m : nat) : R := sumR (map (rowsum M m) (seq 0 n)).
+Definition colsum (M : nat -> nat -> R) (n : nat) (j : nat) : R := sumR (map (fun i => M i j) (seq 0 n)).
+(* SPEC (from the property text): weight_j = sum_i q_ij ln (q_ij / b_i),
+   b_i = rowsum_i / total, q_ij = (M_ij + s b_i) / (colsum_j + s) *)
+Definition iw_spec (n m : nat) (s : R) (M : nat -> nat -> R) (j : nat) : R :=
+  sumR (map (fun i => kl_term (M i j) (rowsum M m i / total M n m) s (colsum M n j + s)) (seq 0 n)).
+
+Definition Mx (cols : list (list (Z * R))) (i j : nat) : R := lookupR (Z.of_nat i) (nth j cols []).
+
+(* a stored column of a count matrix with n rows: one entry per row index at most, indices in range, values >= 0 *)
+Definition col_ok (n : nat) (c : list (Z * R)) : Prop :=
+  NoDup (keys c) /\ in_range n (keys c) /\ nonnegv (map snd c).
+
+Lemma map_nth_seq : forall (A B : Type) (f : A -> B) (l : list A) d,
+  map (fun j => f (nth j l d)) (seq 0 (length l)) = map f l.
+Proof. induction l; intros; simpl; auto. f_equal. rewrite <- seq_shift, map_map. apply IHl. Qed.
+
+Section Matrix.
+  Variable eps : R.
+  Notation O := (R_ops eps).
+
+  Lemma row_fold_R : forall (c : list (Z * R)) i acc, NoDup (keys c) ->
+    fold_left (fun a e => if (fst e =? i)%Z then a + snd e else a) c acc = acc + lookupR i c.
+  Proof.
+    induction c as [|[j v] t IH]; intros i acc Hn; simpl; [lra|]. inversion Hn; subst.
+    rewrite IH by assumption. destruct (j =? i)%Z eqn:E; [|reflexivity].
+    apply Z.eqb_eq in E. subst. rewrite (lookup_notin_keys t i H1). lra.
+  Qed.
+
+  Lemma row_count_R : forall cols i, Forall (fun c => NoDup (keys c)) cols ->
+    row_count R O cols i = sumR (map (lookupR i) cols).
+  Proof.
+    intros cols i H. unfold row_count. simpl.
+    assert (G : forall acc, fold_left (fun acc c => fold_left (fun a e => if (fst e =? i)%Z then a + snd e else a) c acc) cols acc
+                            = acc + sumR (map (lookupR i) cols)).
+    { induction H as [|c cols Hc Hcs IH]; intros acc; simpl; [lra|]. rewrite IH, row_fold_R by assumption. lra. }
+    rewrite G. lra.
+  Qed.
+
+  Lemma row_sums_R : forall n cols, Forall (fun c => NoDup (keys c)) cols ->
+    row_sums R O n cols = map (rowsum (Mx cols) (length cols)) (seq 0 n).
+  Proof.
+    intros n cols H. unfold row_sums. apply map_ext. intros i. rewrite row_count_R by assumption.
+    unfold rowsum, Mx. rewrite (map_nth_seq _ _ (lookupR (Z.of_nat i)) cols []). reflexivity.
+  Qed.
+
+  Lemma baseline_R : forall n cols, Forall (fun c => NoDup (keys c)) cols ->
+    baseline R O n cols = map (fun i => rowsum (Mx cols) (length cols) i / total (Mx cols) n (length cols)) (seq 0 n).
+  Proof.
+    intros n cols H. unfold baseline. simpl. rewrite sum_list_R, row_sums_R by assumption.
+    rewrite map_map. reflexivity.
+  Qed.
+
+  Lemma nth_map_seq : forall (f : nat -> R) n k, (k < n)%nat -> nth k (map f (seq 0 n)) 0 = f k.
+  Proof.
+    intros f n k H. rewrite (nth_indep _ 0 (f 0%nat)) by (rewrite map_length, seq_length; assumption).
+    rewrite map_nth. rewrite seq_nth by assumption. reflexivity.
+  Qed.
+
+  Lemma sorted_col_ok : forall n c, col_ok n c ->
+    sparse_ok R (map fst (sort_col R c)) (map snd (sort_col R c))
+    /\ in_range n (map fst (sort_col R c)) /\ nonnegv (map snd (sort_col R c)).
+  Proof.
+    intros n c (Hn & Hr & Hv).
+    pose proof (sort_col_perm c) as Hp. repeat split.
+    - apply sort_col_incr. assumption.
+    - rewrite !map_length. reflexivity.
+    - unfold in_range in *. eapply Permutation_Forall; [apply Permutation_map; exact Hp|exact Hr].
+    - unfold nonnegv in *. eapply Permutation_Forall; [apply Permutation_map; exact Hp|exact Hv].
+  Qed.
+
+  Lemma dense_sorted_col : forall c k, NoDup (keys c) ->
+    dense R 0 (map fst (sort_col R c)) (map snd (sort_col R c)) k = lookupR k c.
+  Proof. intros. unfold dense. rewrite combine_fst_snd. apply lookup_sort_col. assumption. Qed.
+
+  Lemma sum_data_sorted_col : forall n c, col_ok n c ->
+    sumR (map snd (sort_col R c)) = sumR (map (fun i => lookupR (Z.of_nat i) c) (seq 0 n)).
+  Proof.
+    intros n c Hc. destruct (sorted_col_ok n c Hc) as (Hok & Hr & _). destruct Hc as (Hn & _ & _).
+    rewrite <- (sumR_to_dense n _ _ Hok Hr). unfold to_dense. f_equal. apply map_ext. intros i.
+    apply dense_sorted_col. assumption.
+  Qed.
+
+  Theorem information_weight_R : forall n cols s,
+    Forall (col_ok n) cols -> 0 < s ->
+    information_weight R O false n cols s
+    = map (fun j => Some (iw_spec n (length cols) s (Mx cols) j)) (seq 0 (length cols)).
+  Proof.
+    intros n cols s Hcols Hs.
+    assert (Hnd : Forall (fun c => NoDup (keys c)) cols) by (eapply Forall_impl; [|exact Hcols]; intros c (H & _); exact H).
+    unfold information_weight. rewrite baseline_R by assumption.
+    set (b := map (fun i => rowsum (Mx cols) (length cols) i / total (Mx cols) n (length cols)) (seq 0 n)).
+    rewrite <- (map_nth_seq _ _ (fun c => column_kl_exact R O (map fst (sort_col R c)) (map snd (sort_col R c)) b s) cols []).
+    apply map_ext_in. intros j Hj. apply in_seq in Hj.
+    assert (Hc : col_ok n (nth j cols [])) by (rewrite Forall_forall in Hcols; apply Hcols; apply nth_In; lia).
+    destruct (sorted_col_ok n _ Hc) as (Hok & Hr & Hv).
+    assert (Hb : nonnegv b).
+    { unfold nonnegv, b. rewrite Forall_map. apply Forall_forall. intros i _.
+      assert (Hrs : forall i, 0 <= rowsum (Mx cols) (length cols) i).
+      { intros i0. unfold rowsum. apply sumR_nonneg. rewrite Forall_map. apply Forall_forall. intros j0 Hj0.
+        apply in_seq in Hj0. unfold Mx.
+        assert (Hc0 : col_ok n (nth j0 cols [])) by (rewrite Forall_forall in Hcols; apply Hcols; apply nth_in_or_default || (apply nth_In; lia)).
+        destruct Hc0 as (Hn0 & _ & Hv0).
+        destruct (In_dec Z.eq_dec (Z.of_nat i0) (keys (nth j0 cols []))) as [Hin|Hnot].
+        - unfold keys in Hin. apply in_map_iff in Hin. destruct Hin as ([k' v] & Hk & Hin). simpl in Hk. subst k'.
+          rewrite (lookup_in_nodup _ _ v Hn0 Hin). unfold nonnegv in Hv0. rewrite Forall_forall in Hv0.
+          apply Hv0. apply (in_map snd) in Hin. exact Hin.
+        - rewrite lookup_notin_keys by assumption. lra. }
+      assert (Ht : 0 <= total (Mx cols) n (length cols)).
+      { unfold total. apply sumR_nonneg. rewrite Forall_map. apply Forall_forall. intros; apply Hrs. }
+      destruct (Req_dec (total (Mx cols) n (length cols)) 0) as [->|Hne].
+      - unfold Rdiv. rewrite Rinv_0. rewrite Rmult_0_r. lra.
+      - apply Rmult_le_pos; [apply Hrs|]. left. apply Rinv_0_lt_compat. lra. }
+    rewrite (column_kl_exact_R eps _ _ b s Hok Hv Hb Hs). f_equal.
+    assert (Hlb : length b = n) by (unfold b; rewrite map_length, seq_length; reflexivity).
+    unfold kl_column, iw_spec. rewrite Hlb.
+    apply sumR_map_ext_in. intros i Hi. apply in_seq in Hi.
+    destruct Hc as (Hn & Hc2 & Hc3).
+    rewrite (dense_sorted_col _ _ Hn). unfold b. rewrite nth_map_seq by lia.
+    rewrite (sum_data_sorted_col n _ (conj Hn (conj Hc2 Hc3))). reflexivity.
+  Qed.
+End Matrix.
